@@ -70,13 +70,46 @@ def iteration_weight(f, H, weight):
     return dfs(H), body
 
 
+
+def _pdominates(f, a, b):
+    """block a post-dominates block b"""
+    pd = f.pdom()
+    cur = b
+    seen = set()
+    while cur is not None and cur not in seen:
+        if cur == a:
+            return True
+        seen.add(cur)
+        nxt = pd.get(cur)
+        if nxt == cur:
+            break
+        cur = nxt
+    return False
+
+
+def _conj_atoms(c, truth):
+    """atoms that hold when condition c evaluates to `truth` (conjunctions on the true side, disjunctions on the false side)"""
+    c0 = strip(c)
+    if c0.get("k") == "Bin" and c0.get("op") == "&&" and truth:
+        return _conj_atoms(c0["L"], True) + _conj_atoms(c0["R"], True)
+    if c0.get("k") == "Bin" and c0.get("op") == "||" and not truth:
+        return _conj_atoms(c0["L"], False) + _conj_atoms(c0["R"], False)
+    if c0.get("k") == "Un" and c0.get("op") == "!":
+        return _conj_atoms(c0["e"], not truth)
+    if truth:
+        return [c0]
+    inv = {">": "<=", ">=": "<", "<": ">=", "<=": ">", "==": "!=", "!=": "=="}
+    if c0.get("k") == "Bin" and c0.get("op") in inv:
+        return [dict(c0, op=inv[c0["op"]])]
+    return []
+
 def check(run, prog, tier):
     run.rule("C02-a", "every realloc of a compiler table grows it: the size argument contains an increasing update, or its capacity variable was increased in a dominating statement, or it is an exact fit (strlen+1 of the text copied next)", 6)
     run.rule("C02-b", "lexer copy loops that spend one unit of a space budget per iteration charge every extra byte they store; SAVEC-style cursor stores into yytext are bounded by a comparison with yytext+MAXLINE", 10)
     run.rule("C02-c", "epilog releases the parser state, the lexer input, the scratchpad and the locals table on every return", 3)
     run.rule("C02-d", "yyerror increments num_parse_error (unless already above the report cap); load_object cannot reach object creation from the edge `num_parse_error > 0`", 2)
     run.rule("C02-e", "fatal() is reachable from compile_file only via the reviewed 'cannot happen' callers; the re-entrancy flag of compile_file is cleared on error paths", 2)
-    run.rule("C02-f", "a function that decrements sem_value of entries of the locals table also shrinks the live range (current_number_of_locals) in the same function", 3)
+    run.rule("C02-f", "locals table: one sem_value count per entry - a function that decrements sem_value of entries also shrinks the live range (current_number_of_locals) in the same function; a store of a new entry is followed unconditionally by sem_value++ of the stored identifier; no function raises the count of entries it does not add; an entry popped by `--index` is guarded by index > 0", 5)
 
     funcs = [f for f in prog.functions() if in_units(f)]
     run.need(len(funcs) > 100, "compiler units")
@@ -272,6 +305,51 @@ def check(run, prog, tier):
         run.ob("C02-f", "sem-value:%s" % f.name, shrink, "%s drops sem_value of locals-table entries and %s the live range" % (f.name, "shrinks" if shrink else "DOES NOT shrink"), f.file, decs[0][2].get("l"), f.name,
                what="%s decrements sem_value of entries that stay in the live range of the locals table: the abort path (clean_up_locals) decrements them again and the identifier (possibly an efun name) becomes undefined for later compiles" % f.name)
 
+    # C02-f, acquisition side: every entry of the locals table owns exactly one count
+    def tbl(e):
+        e = strip(e)
+        return e.get("k") == "Sub" and strip(e["b"]).get("k") == "Ref" and strip(e["b"]).get("n") in ("locals_ptr", "locals")
+    nent = 0
+    for f in sorted([x for x in comp.funcs.values() if x.file.endswith("compiler.c")], key=lambda x: x.line):
+        stores = [(b, i, n) for b, i, n in f.nodes() if n.get("k") == "Asg" and n.get("op") == "=" and tbl(n["L"])]
+        incs = [(b, i, n) for b, i, n in f.nodes() if n.get("k") == "Un" and n.get("op") == "++" and strip(n["e"]).get("k") == "Mem" and strip(n["e"]).get("f") == "sem_value"]
+        for b, i, n in stores:
+            nent += 1
+            run.saw(f)
+            src = strip(n["R"])
+            same = [(b2, i2, n2) for b2, i2, n2 in incs if show(strip(strip(n2["e"])["b"])) == show(src) or tbl(strip(n2["e"])["b"])]
+            uncond = [x for x in same if x[0].id == b.id or (f.dominates(b.id, x[0].id) and x[0].id in f.pdom() and _pdominates(f, x[0].id, b.id))]
+            ok = bool(uncond)
+            run.ob("C02-f", "entry-count:%s" % f.name, ok,
+                   "the entry stored at line %s gets its own sem_value count unconditionally" % n.get("l") if ok else
+                   ("the entry stored at line %s is counted only under a condition (%s): a second entry of the same identifier (redeclared local, unnamed arguments) shares one count, and releasing both takes the identifier's own count away - an efun or simul_efun of that name becomes undefined for every later compile" % (n.get("l"), "sem_value++ at line %s" % same[0][2].get("l")) if same
+                    else "the entry stored at line %s gets no sem_value count, but every release path takes one" % n.get("l")),
+                   f.file, n.get("l"), f.name, what="%s: a locals-table entry without a count of its own" % f.name)
+        for b, i, n in incs:
+            if tbl(strip(n["e"])["b"]) and not stores:
+                nent += 1
+                run.saw(f)
+                run.ob("C02-f", "count-without-entry:%s" % f.name, False, "%s raises sem_value of entries it does not add (line %s): the count is never taken back" % (f.name, n.get("l")), f.file, n.get("l"), f.name,
+                       what="%s raises sem_value of existing locals-table entries: the identifier stays defined after its last entry is gone" % f.name)
+        # an entry popped by index: the index stays inside this function's part of the table
+        for b, i, n in f.nodes():
+            if n.get("k") == "Sub" and strip(n["b"]).get("n") == "locals_ptr" and strip(n["i"]).get("k") == "Un" and strip(n["i"]).get("op") == "--" and not strip(n["i"]).get("post"):
+                cnt = show(strip(strip(n["i"])["e"]))
+                g_ok = False
+                for c, truth, gb in cfgq.guards(f, b.id):
+                    for a in _conj_atoms(c, truth):
+                        e, t = normalize_cond(a, True) if isinstance(a, dict) else (a, True)
+                        e = strip(e)
+                        if e.get("k") == "Bin" and e.get("op") in (">", "!=", ">=") and show(strip(e["L"])) == cnt and (const_val(e["R"]) == 0 and e["op"] in (">", "!=") or const_val(e["R"]) == 1 and e["op"] == ">=") and t:
+                            g_ok = True
+                        if e.get("k") == "Ref" and show(e) == cnt and t:
+                            g_ok = True
+                nent += 1
+                run.ob("C02-f", "pop-index:%s" % f.name, g_ok, "locals_ptr[--%s] runs only while %s > 0" % (cnt, cnt) if g_ok else
+                       "locals_ptr[--%s] at line %s is not guarded by %s > 0: the caller's count includes declarations that add_local_name() refused, and the pop reads locals_ptr[-1]" % (cnt, n.get("l"), cnt),
+                       f.file, n.get("l"), f.name, what="%s pops below its own part of the locals table" % f.name)
+    run.need(nent >= 2, "locals-table entry stores / indexed pops (found %d)" % nent)
+
     # ---- C02-g lexer state across tokens/compilations
     import rules.C02g as c02g
     c02g.check(run, prog, tier, callgraph.CallGraph(prog))
@@ -322,3 +400,8 @@ def check(run, prog, tier):
     import rules.C02i as c02i
     c02i.check(run, prog, tier)
     c02i.check_rebase(run, prog)
+
+    # ---- C02-o bytes versus element index in the compiler's memory blocks
+    import rules.unitsrule as unitsrule
+    unitsrule.check(run, prog, "C02-o", lambda f, text: True, 20,
+                    "the compiler reads or writes its block at the wrong place (out of bounds for large programs)")
